@@ -16,6 +16,8 @@ import Earverif.Props.C07
 import Earverif.Props.C20
 import Earverif.Proofs.C14Empty
 import Earverif.Proofs.C06Doc
+import Earverif.Proofs.C06Acyclic
+import Earverif.Model.SelectValidated
 
 namespace Earverif.Adm
 
@@ -415,6 +417,40 @@ theorem mem_specStates_iff {a : Adm} (hac : Acyclic a) (hrange : a.refsInRange =
   · rintro ⟨c, hc, r, hrc, path, hp, hn, rfl⟩
     exact ⟨c, hc, r, hrc, path, ⟨(mem_objectPathsFrom_iff hac (hr c r hrc) path).2 hp, hn⟩, rfl⟩
 
+/-- `validate_structure` runs `_validate_object_loops` (second step of the C14 model's `validateStructure`) -/
+theorem validateObjectLoops_of_validate {d : AdmV.Doc} (hv : Validate.validateStructure d = .ok ()) :
+    Validate.validateObjectLoops d = .ok () := by
+  unfold Validate.validateStructure at hv
+  obtain ⟨_, _, h⟩ := Validate.bind_ok hv
+  obtain ⟨_, h2, _⟩ := Validate.bind_ok h
+  exact h2
+
+/-- **acyclic_of_validate**: `Acyclic a` — the hypothesis of `mem_objectPathsFrom_iff` / `mem_specStates_iff` that
+makes the fuel of `objectPathsFrom` sufficient — is DERIVED from C14's object-loop validator
+(`Validate.objLoopDfs`, run by `validateStructure` on `toDoc a`): a dfs that returned without the loop error from
+every object visited only duplicate-free chains (`objLoopDfs_chains`), so chains have at most `a.objects.length`
+entries (pigeonhole) and the longest-chain length is a rank (`rank_of_chains_short`).  `refsInRange` stays a
+hypothesis (dangling indices cannot be written in Python; the driver checks it before running the model). -/
+theorem acyclic_of_validate {a : Adm} (hrange : a.refsInRange = true)
+    (hv : Validate.validateStructure (toDoc a) = .ok ()) : Acyclic a := by
+  have hsubs := (objRefsOK_of_refsInRange hrange).subs
+  have hl := validateObjectLoops_of_validate hv
+  have hch : ∀ o c, o < (toDoc a).objects.length → c ∈ ((toDoc a).obj o).objects → c < (toDoc a).objects.length := by
+    intro o c _ hc
+    rw [toDoc_obj_objects] at hc
+    rw [toDoc_nobjects]
+    exact hsubs o c hc
+  have hfun : (fun i => ((toDoc a).obj i).objects) = a.subs := funext (toDoc_obj_objects a)
+  refine rank_of_chains_short a.subs a.objects.length (fun o c _ hc => hsubs o c hc) ?_ ?_
+  · intro o ho
+    unfold Adm.subs Adm.obj
+    simp [List.getD_eq_getElem?_getD, List.getElem?_eq_none ho]
+    rfl
+  · intro r hr p hp
+    have := chains_short_of_loops (toDoc a) hch hl (r := r) (by rw [toDoc_nobjects]; exact hr) (p := p)
+      (by rw [hfun]; exact hp)
+    rwa [toDoc_nobjects] at this
+
 /-- **select_once_per_path**: the selected items that name a given (programme, content, object
 path) are exactly the items of that one state, once — and nothing when the state is not in the
 comprehension.  Together with `specStates_nodup` / `mem_specStates_iff`: the multiplicity of an
@@ -610,6 +646,44 @@ theorem mem_rootObjects (a : Adm) (r : Nat) :
     r ∈ rootObjects a ↔ r < a.objects.length ∧ ∀ o ∈ a.objects, r ∉ o.subObjects := by
   simp [rootObjects, List.mem_filter, List.mem_range, List.mem_flatMap]
 
+/-- which states there are when no programme is selected (documents without audioProgramme): one per root object and
+chain of sub-objects from it that avoids ignored objects -/
+theorem mem_specStates_none_iff {a : Adm} (hac : Acyclic a)
+    (hne : ¬ (a.programmes = [] ∧ a.objects = [])) (ign : List Nat) (st : State) :
+    st ∈ specStates a none ign ↔
+      ∃ r ∈ rootObjects a, ∃ path, Chain a.subs r path ∧ notIgnored ign path = true ∧
+        st = ⟨none, none, some path⟩ := by
+  unfold specStates
+  simp only [hne, if_false, List.mem_flatMap, List.mem_map, specPaths, List.mem_filter]
+  constructor
+  · rintro ⟨r, hr, path, ⟨hp, hn⟩, rfl⟩
+    exact ⟨r, hr, path, (mem_objectPathsFrom_iff hac ((mem_rootObjects a r).1 hr).1 path).1 hp, hn, rfl⟩
+  · rintro ⟨r, hr, path, hp, hn, rfl⟩
+    exact ⟨r, hr, path, ⟨(mem_objectPathsFrom_iff hac ((mem_rootObjects a r).1 hr).1 path).2 hp, hn⟩, rfl⟩
+
+/-- **select_eq_decl_chain**: on a document that C14's `validate_structure` accepts, the state enumeration
+`specStates` that `select_eq_decl` / `select_eq_decl_validated` range over is the declarative set — with no fuel and no
+model function in it: a state is enumerated iff it is (chosen programme `q`, one of its contents `c`, a chain of
+sub-object references from one of `c`'s objects) — or (no programme: a chain from a root object, i.e. an object that no
+object references) — and no object of the chain is ignored.  (`rootObjects` is characterised by `mem_rootObjects`; the
+ignored objects by `mem_ignored_iff`; the ORDER and multiplicity of the enumeration by `specStates_nodup` and the
+model's iteration order, which is not declarative.) -/
+theorem select_eq_decl_chain {a : Adm} (hrange : a.refsInRange = true)
+    (hv : Validate.validateStructure (toDoc a) = .ok ()) (hne : ¬ (a.programmes = [] ∧ a.objects = []))
+    (ign : List Nat) (st : State) :
+    (∀ q, st ∈ specStates a (some q) ign ↔
+      ∃ c ∈ (a.prog q).contents, ∃ r ∈ (a.cont c).objects, ∃ path, Chain a.subs r path ∧
+        notIgnored ign path = true ∧ st = ⟨some q, some c, some path⟩) ∧
+    (st ∈ specStates a none ign ↔
+      ∃ r, (r < a.objects.length ∧ ∀ o ∈ a.objects, r ∉ o.subObjects) ∧ ∃ path, Chain a.subs r path ∧
+        notIgnored ign path = true ∧ st = ⟨none, none, some path⟩) := by
+  have hac := acyclic_of_validate hrange hv
+  refine ⟨fun q => mem_specStates_iff hac hrange hne q ign st, ?_⟩
+  rw [mem_specStates_none_iff hac hne]
+  constructor
+  · rintro ⟨r, hr, rest⟩; exact ⟨r, (mem_rootObjects a r).1 hr, rest⟩
+  · rintro ⟨r, hr, rest⟩; exact ⟨r, (mem_rootObjects a r).2 hr, rest⟩
+
 /-! ## select_perm (declaration order of reference lists) -/
 
 /-- the document with every child reference list of the content part emptied: what the
@@ -795,8 +869,15 @@ change whether selection succeeds).
 PARTIAL: this theorem covers the child reference lists of the content part only.  The other re-declarations have
 their own theorems: `select_perm_objects` (re-numbering audioObjects), `select_perm_own_refs` (an object's pack /
 track reference lists), `select_perm_formats` (re-numbering audioPackFormats / audioChannelFormats / audioTrackUIDs),
-`select_renumber_contents` / `select_renumber_programmes`.  Not covered by any of them: re-ordering the sub-pack
-reference list of an audioPackFormat (tied to the code by the correspondence and searched by the direct predicate). -/
+`select_renumber_contents` / `select_renumber_programmes`, `select_perm_comps` (an object's complementary-object
+reference list; `ChildPerm.comps` here demands EQUALITY of those lists).  Not covered by any of them (tied to the code
+by the correspondence and searched by the direct predicate only): re-ordering the sub-pack reference list of an
+audioPackFormat; the channel-reference list of a non-HOA audioPackFormat; the alternativeValueSet lists (`getAvs`
+takes the LAST match); a Matrix block's `coeffs` and a pack's `encodePacks`.  Direction and composition: the perm
+theorems are one-directional (success of `a` ⇒ success of `a'` with permuted items) except `select_perm_formats` and
+`select_perm_comps` (equality); they cannot be chained into one statement about an arbitrary re-declaration, because
+the hypotheses of the next theorem (`refsInRange` / `multitreeOK` / `NoDupRefs` of the permuted document) are not
+proved to be preserved by the previous one. -/
 theorem select_perm_partial {a a' : Adm} (h : ChildPerm a a') (given : Option Nat) (sel : List Nat)
     {items : List Item} (hs : selectRenderingItems a given sel = .ok items) :
     ∃ items', selectRenderingItems a' given sel = .ok items' ∧ items.Perm items' := by
@@ -824,6 +905,134 @@ theorem select_perm_partial {a a' : Adm} (h : ChildPerm a a') (given : Option Na
         exact this.symm
       rw [hfun]
       exact flatMapE_perm (itemsOfState a) (h.specStates _ ign).symm hs
+
+/-! ## re-ordering the complementary-object reference list of an audioObject -/
+
+/-- `a'` is `a` with the `audioComplementaryObjectIDRef` lists of its audioObjects re-ordered; everything else,
+including the other child reference lists, unchanged. -/
+structure CompPerm (a a' : Adm) : Prop where
+  strip : a'.strip = a.strip
+  contents : ∀ p, (a'.prog p).contents = (a.prog p).contents
+  objects : ∀ c, (a'.cont c).objects = (a.cont c).objects
+  subs : ∀ o, a'.subs o = a.subs o
+  comps : ∀ o, ((a'.obj o).complementary).Perm ((a.obj o).complementary)
+
+theorem CompPerm.nobj {a a' : Adm} (h : CompPerm a a') : a'.objects.length = a.objects.length := by
+  have := congrArg (fun x => x.objects.length) h.strip
+  simpa [Adm.strip] using this
+
+theorem CompPerm.keys {a a' : Adm} (h : CompPerm a a') :
+    a'.programmes.map (·.idKey) = a.programmes.map (·.idKey) := by
+  have := congrArg (fun x => x.programmes.map (·.idKey)) h.strip
+  simpa [Adm.strip, List.map_map, Function.comp_def] using this
+
+theorem CompPerm.nprog {a a' : Adm} (h : CompPerm a a') : a'.programmes = [] ↔ a.programmes = [] := by
+  have := congrArg List.length h.keys
+  simp only [List.length_map] at this
+  rw [← List.length_eq_zero_iff, ← List.length_eq_zero_iff, this]
+
+theorem CompPerm.rootObjects {a a' : Adm} (h : CompPerm a a') : rootObjects a' = rootObjects a := by
+  unfold Earverif.Adm.rootObjects
+  simp only [h.nobj]
+  apply List.filter_congr
+  intro i _
+  congr 1
+  rw [Bool.eq_iff_iff]
+  simp only [List.contains_iff_mem, mem_nonRoot, h.nobj, h.subs]
+
+theorem notIgnored_congr {ign ign' : List Nat} (hm : ∀ x, x ∈ ign' ↔ x ∈ ign) (p : List Nat) :
+    notIgnored ign' p = notIgnored ign p := by
+  unfold notIgnored
+  congr 2
+  funext x
+  rw [Bool.eq_iff_iff]
+  simp only [List.contains_iff_mem, hm]
+
+theorem CompPerm.specStates {a a' : Adm} (h : CompPerm a a') (prog : Option Nat) {ign ign' : List Nat}
+    (hm : ∀ x, x ∈ ign' ↔ x ∈ ign) : specStates a' prog ign' = specStates a prog ign := by
+  have hno : a'.objects = [] ↔ a.objects = [] := by
+    rw [← List.length_eq_zero_iff, ← List.length_eq_zero_iff, h.nobj]
+  have hsp : ∀ r, specPaths a' ign' r = specPaths a ign r := by
+    intro r
+    unfold Earverif.Adm.specPaths objectPathsFrom
+    rw [h.nobj, funext h.subs, funext (notIgnored_congr hm)]
+  unfold Earverif.Adm.specStates
+  simp only [h.nprog, hno, h.rootObjects, h.contents, h.objects, hsp]
+
+/-- the complementary selection of the re-ordered document fails with the same error, or ignores the same SET of
+objects: `_select_complementary_objects` looks at a group only through membership tests and a count. -/
+theorem CompPerm.selectComplementary {a a' : Adm} (h : CompPerm a a') (sel : List Nat) :
+    match selectComplementary a sel with
+    | .error e => selectComplementary a' sel = .error e
+    | .ok ign => ∃ ign', selectComplementary a' sel = .ok ign' ∧ ∀ x, x ∈ ign' ↔ x ∈ ign := by
+  have hroots : compRoots a' = compRoots a := by
+    unfold compRoots
+    rw [h.nobj]
+    apply List.filter_congr
+    intro i _
+    have := h.comps i
+    by_cases hc : (a.obj i).complementary = []
+    · rw [hc] at this; simp [hc, this.eq_nil]
+    · have hc' : (a'.obj i).complementary ≠ [] := fun e => hc (by rw [e] at this; exact this.symm.eq_nil)
+      simp [hc, hc']
+  have hgroup : ∀ r, (compGroup a' r).Perm (compGroup a r) := fun r => (h.comps r).cons r
+  have hall : ∀ s, ((compRoots a).flatMap (compGroup a')).contains s = ((compRoots a).flatMap (compGroup a)).contains s := by
+    intro s
+    rw [Bool.eq_iff_iff]
+    simp only [List.contains_iff_mem]
+    exact (perm_flatMap_congr (.refl _) fun r _ => hgroup r).mem_iff
+  have hsel : compAllSelected a' sel = compAllSelected a sel := by
+    unfold compAllSelected
+    rw [hroots]
+    congr 1
+    apply List.filter_congr
+    intro r _
+    rw [(hgroup r).any_eq]
+  have hlen : ∀ r (q : Nat → Bool), ((compGroup a' r).filter q).length = ((compGroup a r).filter q).length :=
+    fun r q => ((hgroup r).filter q).length_eq
+  unfold Earverif.Adm.selectComplementary
+  simp only [hroots, hsel, hall, hlen]
+  by_cases h1 : (sel.any fun s => !((compRoots a).flatMap (compGroup a)).contains s) = true
+  · simp only [h1, if_true]
+  · by_cases h2 : ((compRoots a).any fun r =>
+        decide (((compGroup a r).filter fun x => (compAllSelected a sel).contains x).length > 1)) = true
+    · simp only [h1, h2, if_true, if_false, Bool.false_eq_true]
+    · simp only [h1, h2, if_false, Bool.false_eq_true]
+      refine ⟨_, rfl, fun x => ?_⟩
+      exact (perm_flatMap_congr (.refl _) fun r _ => (hgroup r).filter _).mem_iff
+
+/-- **select_perm_comps** (order of the complementary-object references of an audioObject): the selection of the
+re-ordered document is EQUAL to the selection of the original — same items in the same order, same error.  Both
+directions (the relation is symmetric: `CompPerm.symm`). -/
+theorem select_perm_comps {a a' : Adm} (h : CompPerm a a') (given : Option Nat) (sel : List Nat) :
+    selectRenderingItems a' given sel = selectRenderingItems a given sel := by
+  rw [select_eq_spec, select_eq_spec]
+  unfold specSelect
+  have hfmt : a'.fmt = a.fmt := by
+    have := congrArg Adm.fmt h.strip
+    exact this
+  have hfun : itemsOfState a' = itemsOfState a := by
+    funext st
+    have := itemsOfState_strip a' st
+    rw [h.strip, itemsOfState_strip] at this
+    exact this.symm
+  have hc := h.selectComplementary sel
+  rw [hfmt, selectProgramme_congr h.keys]
+  cases hw : wrappedPacks a.fmt with
+  | error e => rfl
+  | ok wps =>
+    cases hs : Earverif.Adm.selectComplementary a sel with
+    | error e => rw [hs] at hc; simp only [hc]
+    | ok ign =>
+      rw [hs] at hc
+      obtain ⟨ign', hc', hm⟩ := hc
+      simp only [hc', h.specStates _ hm]
+      show flatMapE (itemsOfState a') _ = flatMapE (itemsOfState a) _
+      rw [hfun]
+
+theorem CompPerm.symm {a a' : Adm} (h : CompPerm a a') : CompPerm a' a :=
+  ⟨h.strip.symm, fun p => (h.contents p).symm, fun c => (h.objects c).symm, fun o => (h.subs o).symm,
+    fun o => (h.comps o).symm⟩
 
 /-! ## the programme chosen: lowest id, independent of declaration order -/
 
@@ -2888,8 +3097,18 @@ theorem exists_fun_of_forall_mem {α β : Type} [Inhabited β] {l : List α} {P 
 `[ item | state ∈ specStates, allocated pack ∈ the valid allocation of the state, item ∈ declItems ]`
 where the state enumeration (`specStates`), "valid allocation" (C07's `Valid`, unique up to `≈`), the
 output pack / track specs (`declOutput`: track index − 1, silence, or the matrix sum) and the per-channel
-items (`declItems`: `declSingle`, `declHoa`) are all declarative: none of them calls the model's
-`selectPackMapping`, `outputOf`, `itemsOfPack`. -/
+items (`declItems`: `declSingle`, `declHoa`) do not call the model's `selectPackMapping`, `outputOf`, `itemsOfPack`.
+What is NOT declarative on the right-hand side (model functions re-used by the "specification"):
+* the STATE ENUMERATION `specStates` is `objectPathsFrom` (the model's fuel-cut `pathsFrom`) after the model's
+  `selectProgramme` / `selectComplementary`; it is the set of chains only under `Acyclic` + `refsInRange`
+  (`mem_objectPathsFrom_iff`, `mem_specStates_iff`), and `Acyclic` follows from validation (`acyclic_of_validate`):
+  `select_eq_decl_chain` is the declarative reading, for validated documents only; the ORDER of the states is the
+  model's iteration order;
+* `declSingle` / `declHoa` contain the model's `extraOf` and `getImportance` (characterised field by field by the
+  `extraOf_*` lemmas and `minImp_spec`, not replaced), and `thePackPath` is the head of the model's `packPathsFrom`
+  (fuel = number of packs; sufficiency of that fuel under `multitreeOK` is not proved: a pack path longer than the
+  fuel would be cut in model and "spec" alike);
+* `selectProgramme` is characterised by `select_programme_lowest_id`, `selectComplementary` by `mem_ignored_iff`. -/
 theorem select_eq_decl {a : Adm} {given : Option Nat} {sel : List Nat} {items : List Item}
     (h : selectRenderingItems a given sel = .ok items) (hmt : multitreeOK a.fmt = true) :
     ∃ wps ign, wrappedPacks a.fmt = .ok wps ∧ selectComplementary a sel = .ok ign ∧
@@ -4893,7 +5112,13 @@ theorem flatMapE_error_mem {α β : Type} {f : α → Except Err (List β)} {e :
     exact mapE_error_mem hm
   | ok ys => rw [hm] at h; cases h
 
-/-- **PackItemsOK**: the per-item parameter merges of an allocated output pack exist — the pack is of a
+/-- **PackItemsOK** — NOT derived from validation and NOT declarative: it is literally "the model's
+`getPackFormatPath` / `getPathParam` / `hoaMetaOf` / `getSingleParam` return `.ok`" on the allocated pack (each of them
+has an `_ok_iff` characterisation, named below, but `select_ok_iff` / `select_eq_decl_validated` do not unfold them),
+so the `PackItemsOK` half of `StateAllocOK` in `select_ok_iff` is an unfolding of the model, not a consequence of
+`validate_structure` (which by itself would have to establish e.g. agreeing absoluteDistance values and HOA
+parameters: it does check the latter, the link is not proved here).
+The per-item parameter merges of an allocated output pack exist — the pack is of a
 renderable type (Objects / DirectSpeakers: one item per channel; HOA: one item), every allocated channel lies on
 exactly one pack path below the pack (`getPackFormatPath_ok_iff`), the absoluteDistance values along that path agree
 (`getPathParam_ok_iff`), and for HOA the merged parameters exist (`hoaMetaOf_ok_iff`: all channels agree on
@@ -5120,15 +5345,9 @@ def thePacks (f : Formats) : List WPack :=
 theorem thePacks_eq {f : Formats} {wps : List WPack} (h : wrappedPacks f = .ok wps) : thePacks f = wps := by
   unfold thePacks; rw [h]
 
-/-- `select_rendering_items` as the real function runs it: `validate_structure(adm)` first (the C14 model
-`Validate.validateStructure`, on the document graph `toDoc a` of the same document), then the selection proper. -/
-def selectValidated (a : Adm) (given : Option Nat) (sel : List Nat) : Except (Validate.Err ⊕ Err) (List Item) :=
-  match Validate.validateStructure (toDoc a) with
-  | .error e => .error (.inl e)
-  | .ok () =>
-    match selectRenderingItems a given sel with
-    | .error e => .error (.inr e)
-    | .ok items => .ok items
+/-! `selectValidated` (`select_rendering_items` as the real function runs it: `validate_structure(adm)` first — the C14
+model `Validate.validateStructure` on the document graph `toDoc a` — then the selection proper) is defined in
+`Model/SelectValidated.lean`, so that the C06 driver executes it for every `R` request. -/
 
 /-- decidable form of "`validate_structure` accepts the document" (for concrete documents). -/
 def validatedB (a : Adm) : Bool :=
@@ -5148,7 +5367,10 @@ is in a group, at most one member per group selected) and (3) for every state of
 content / root object / object path avoiding ignored objects) the allocation problem has exactly one valid
 allocation up to `≈` (C07 `accept_iff_unique`), every allocated pack of it has a usable output (`OutputOK`) and the
 per-item parameter merges exist (`PackItemsOK`).  That the `AllocationPack`s can be built is not a separate
-condition: it follows from (1). -/
+condition: it follows from (1).  PARTIAL in this sense: the `PackItemsOK` conjunct of (3) says "the model's
+`getPackFormatPath` / `getPathParam` / `hoaMetaOf` / `getSingleParam` return `.ok`" — that half of the iff is an
+unfolding of the model, not derived from validation; the states are the model's `specStates` (declaratively:
+`select_eq_decl_chain`, using `acyclic_of_validate`). -/
 theorem select_ok_iff (a : Adm) (given : Option Nat) (sel : List Nat) :
     (∃ items, selectValidated a given sel = .ok items) ↔
       Validate.validateStructure (toDoc a) = .ok () ∧
@@ -5182,7 +5404,11 @@ allocation of the state, item ∈ declItems ]`, every state satisfying `StateAll
 with the error of the complementary-object selection, or with the error of one state of the comprehension, which is
 "Conflicting format references" exactly when that state has no valid allocation, "Ambiguous format references"
 exactly when it has two inequivalent ones, and anything else only when its unique valid allocation contains a pack
-without usable output or without the per-item merges.  Building the `AllocationPack`s never fails. -/
+without usable output or without the per-item merges.  Building the `AllocationPack`s never fails.
+The third error disjunct leaves `e` FREE: it names the situation (unique valid allocation, some allocated pack fails
+`OutputOK` or `PackItemsOK`) but says nothing about which error value is returned (it is whatever `itemsOfState a st`
+returned: an unsupported type, a failed parameter merge, …); these non-allocation errors on validated documents are
+named, not excluded. -/
 theorem select_eq_decl_validated {a : Adm} (hv : Validate.validateStructure (toDoc a) = .ok ())
     (given : Option Nat) (sel : List Nat) :
     match selectRenderingItems a given sel with
@@ -5597,7 +5823,7 @@ example : briefs (selectRenderingItems (renameFormats exM exMi exChna) none []) 
 /-! ### non-vacuity: validated documents (`select_ok_iff`, `select_eq_decl_validated`) -/
 
 /-- the C14 model of `validate_structure` accepts the example documents (also the one with Matrix packs). -/
-example : validatedB exDoc = true ∧ validatedB exChna = true := by decide
+example : validatedB exDoc = true ∧ validatedB exChna = true ∧ validatedB exMat = true := by decide
 
 example : Validate.validateStructure (toDoc exDoc) = .ok () := validatedB_iff.1 (by decide)
 
@@ -5630,5 +5856,88 @@ example : validatedB exConf = true ∧ errOf (selectRenderingItems exConf none [
 /-- a document that validation rejects (pack loop): `selectValidated` fails in the validation stage. -/
 example : validatedB { exDoc with fmt := { exDoc.fmt with packs := [exPack [1] [1], exPack [2] [0]] } } = false := by
   decide
+
+/-! ### non-vacuity: `acyclic_of_validate`, `select_eq_decl_chain`, `select_perm_comps` -/
+
+/-- `Acyclic` of the example obtained from the C14 loop validator instead of a hand-made rank -/
+example : Acyclic exDoc := acyclic_of_validate (by decide) (validatedB_iff.1 (by decide))
+
+/-- the state `(programme 0, content 0, path o0 → o2 → o3)` is enumerated because it is a chain from an object of the
+content that avoids the ignored `o5` -/
+example : (⟨some 0, some 0, some [0, 2, 3]⟩ : State) ∈ specStates exDoc (some 0) [5] :=
+  ((select_eq_decl_chain (by decide) (validatedB_iff.1 (by decide)) (by decide) [5] _).1 0).2
+    ⟨0, by decide, 0, by decide, [0, 2, 3],
+      .cons 0 2 _ (by decide) (.cons 2 3 _ (by decide) (.single 3)), by decide, rfl⟩
+
+/-- an object loop `o3 → o0` is rejected by the validator (so the hypothesis of `acyclic_of_validate` is not
+trivially true) -/
+example : validatedB { exDoc with objects := exDoc.objects.map fun o =>
+    if o.packs = [1] then { o with subObjects := [0] } else o } = false := by decide
+
+/-- `exDoc` with a complementary group of three (`o4`: members `o5`, `o3`) and the same group declared in the other
+order -/
+def exComp (comps : List Nat) : Adm :=
+  { exDoc with objects := exDoc.objects.map fun o => if o.complementary = [5] then { o with complementary := comps } else o }
+
+example : CompPerm (exComp [5, 3]) (exComp [3, 5]) := by
+  refine ⟨by decide, fun _ => rfl, fun _ => rfl, fun o => ?_, fun o => ?_⟩
+  · match o with
+    | 0 | 1 | 2 | 3 | 4 | 5 => rfl
+    | _ + 6 => rfl
+  · match o with
+    | 0 | 1 | 2 | 3 | 5 => exact .refl _
+    | 4 => exact List.Perm.swap _ _ _
+    | _ + 6 => exact .refl _
+
+example : briefs (selectRenderingItems (exComp [3, 5]) none [5]) = briefs (selectRenderingItems (exComp [5, 3]) none [5]) ∧
+    (briefs (selectRenderingItems (exComp [5, 3]) none [5])).map List.length = some 1 := by decide
+
+/-! ### non-vacuity: an HOA pack nested in a pack, BS.2076-1 track references (`hoaItem_ok_iff`, `trackChannel`) -/
+
+def exHb (o d : Int) : HoaBlock :=
+  { order := o, degree := d, rtime := none, duration := none, gain := 1, importance := 10,
+    normalization := some 0, nfcRefDist := none, screenRef := none }
+
+def exHoaObj : Obj :=
+  { packs := [0], tracks := [some 0, some 1], subObjects := [], complementary := [], start := none,
+    duration := none, gain := 1, mute := false, posOff := none, importance := none, avs := [] }
+
+/-- one object referencing the outer HOA pack `p0` (no channels, sub-pack `p1` with the two HOA channels); the two
+audioTrackUIDs reach their channels through audioTrackFormat → audioStreamFormat (non-identity tables:
+`uid0 → tf1 → stream0 → ch0`, `uid1 → tf0 → stream1 → ch1`), so the `TrackRef.trackFormat` branch of `trackChannel`
+and non-empty `streamFormats` / `trackFormats` are exercised -/
+def exHoa : Adm :=
+  { programmes := [⟨0x1001, [0], none, []⟩],
+    contents := [⟨[0], []⟩],
+    objects := [exHoaObj],
+    fmt := {
+      packs := [{ type := 4, channels := [], subPacks := [1], importance := none, absDist := none,
+                  normalization := none, nfcRefDist := none, screenRef := none },
+                { type := 4, channels := [0, 1], subPacks := [], importance := none, absDist := none,
+                  normalization := none, nfcRefDist := none, screenRef := none }],
+      channels := [{ type := 4, lowPass := none, highPass := none, blocks := [0], hoa := exHb 0 0 },
+                   { type := 4, lowPass := none, highPass := none, blocks := [1], hoa := exHb 1 (-1) }],
+      streamFormats := [0, 1], trackFormats := [1, 0],
+      trackUIDs := [⟨1, .trackFormat 1, 0⟩, ⟨2, .trackFormat 0, 0⟩] } }
+
+example : exHoa.refsInRange = true ∧ validatedB exHoa = true ∧
+    trackChannel exHoa.fmt 0 = 0 ∧ trackChannel exHoa.fmt 1 = 1 := by decide
+
+/-- one HOA item for the pack: both tracks, both channels, each channel on the nested pack path `[p0, p1]` -/
+example : (match selectRenderingItems exHoa none [] with
+    | .ok l => l.map fun (it : Item) => (it.kind, it.tracks.map specBrief, it.channels, it.packPaths)
+    | .error _ => []) = [(4, [some 0, some 1], [0, 1], [[0, 1], [0, 1]])] := by decide
+
+/-- an instance of `hoaItem_ok_iff`: the HOA item of the allocated pack exists, hence (left to right) every allocated
+channel lies on exactly one pack path and the merged HOA parameters / extra data exist -/
+example : ∃ hm ex, hoaMetaOf exHoa.fmt (packPathsChannels exHoa.fmt ⟨0, [(0, .direct 0), (1, .direct 1)]⟩) = .ok hm ∧
+    getExtraData exHoa ⟨some 0, some 0, some [0]⟩
+      (packPathsChannels exHoa.fmt ⟨0, [(0, .direct 0), (1, .direct 1)]⟩) none = .ok ex := by
+  have hn : errOf (hoaItem exHoa ⟨some 0, some 0, some [0]⟩ ⟨0, [(0, .direct 0), (1, .direct 1)]⟩) = none := by decide
+  cases hs : hoaItem exHoa ⟨some 0, some 0, some [0]⟩ ⟨0, [(0, .direct 0), (1, .direct 1)]⟩ with
+  | error e => simp [hs, errOf] at hn
+  | ok it =>
+    obtain ⟨_, hm, ex, h1, h2, _⟩ := (hoaItem_ok_iff _ _ _ _).1 hs
+    exact ⟨hm, ex, h1, h2⟩
 
 end Earverif.Adm
